@@ -130,7 +130,7 @@ type histOut struct {
 // ---- driver ----
 
 func run(c *vf.Ctx) {
-	c.Rule("history = 8 HTTP clients pinned round-robin to the nodes of a live in-process cluster (1 node, or 3 nodes so that queued writes enter at the leader and at followers and are forwarded) each post a seeded script of 80-85 /db/execute?queue requests (plain, &wait, &wait&timeout=1ms..2s) of 1-5 statements INSERT INTO q(c,n,i) into a table with an AUTOINCREMENT key, with seeded pauses (30% none) so that the queue's size flush and timer flush interleave; per case the batch size (2,3,4,8), queue timeout (2,5,20 ms) and capacity (8,16,64: producers block) vary; on 3 nodes a seeded nemesis steps the leader down, isolates the leader or a follower for 0.4-1.5 s, kills inter-node connections and cuts forwarded responses; half of the histories run under the race detector. After the clients finish: heal, one final wait request per node (drain), one strong read of the whole table. non-trivial = both flush paths were taken (timer flushes and size flushes observed in the queue counters), at least 10 wait responses were followed by a successful strong read, and (3 nodes) the queue consumer had to retry a batch at least once or two different leaders were seen; distinct by case number")
+	c.Rule("history = 8 HTTP clients pinned round-robin to the nodes of a live in-process cluster (1 node, or 3 nodes so that queued writes enter at the leader and at followers and are forwarded) each post a seeded script of 80-85 /db/execute?queue requests (plain, &wait, &wait&timeout=1ms..2s) of 1-5 statements INSERT INTO q(c,n,i) into a table with an AUTOINCREMENT key, with seeded pauses (30% none) so that the queue's size flush and timer flush interleave; per case the batch size (2,3,4,8), queue timeout (2,5,20 ms) and capacity (8,16,64: producers block) vary; on 3 nodes a seeded nemesis steps the leader down, isolates the leader or a follower for 0.4-1.5 s, kills inter-node connections and cuts forwarded responses; half of the histories run under the race detector. After the clients finish: heal, a burst of 24 producers x 120 back-to-back single-statement requests at one node (contention inside the queue's Write), one final wait request per node (drain), one strong read of the whole table. non-trivial = both flush paths were taken (timer flushes and size flushes observed in the queue counters), at least 10 wait responses were followed by a successful strong read, and (3 nodes) the queue consumer had to retry a batch at least once or two different leaders were seen; distinct by case number")
 	c.Assume("apply order is what SQLite's AUTOINCREMENT key records; acceptance order on one node is the order of the sequence_number values that node returned")
 	c.Assume("a request answered 200 or 408 (queue wait timeout) was accepted; any other status was refused before the queue; a transport error is an unknown outcome and is not required to appear")
 	c.Assume("duplicates (at-least-once) are tolerated only when the process counted a queue retry or an inter-node client re-send (the latter is the known C02 finding duplicate-apply:forward-resend-after-lost-response); order is judged on first occurrences")
@@ -350,7 +350,7 @@ func judge(c *vf.Ctx, i int, h *histOut) {
 	waitsOK := 0
 	for j := range h.Reqs {
 		r := &h.Reqs[j]
-		if r.Mode == "q" || r.Status != 200 {
+		if r.Mode == "q" || r.Mode == "burst" || r.Status != 200 {
 			if r.Status == 408 {
 				c.Count("wait_timeouts_408", 1)
 			}
@@ -414,6 +414,11 @@ func max64(a, b int64) int64 {
 }
 
 // ---- worker: one history ----
+
+const (
+	burstProducers   = 24
+	burstPerProducer = 120
+)
 
 func worker(args []string) {
 	var caseNo int
@@ -547,7 +552,32 @@ func runHistory(c *vf.Ctx, caseNo int, dir string) (h histOut) {
 	wg.Wait()
 	cl.Net.HealAll()
 	note()
-	logf("clients done, draining")
+	// Burst phase: many producers hit one node's queue back to back, so that
+	// concurrent acceptances contend inside queue.Write.
+	logf("clients done, burst")
+	cl.WaitLeader(60 * time.Second)
+	{
+		target := nodes[cs.Case%len(nodes)]
+		var bw sync.WaitGroup
+		start := make(chan struct{})
+		for g := 0; g < burstProducers; g++ {
+			bw.Add(1)
+			go func(g int) {
+				defer bw.Done()
+				<-start
+				for j := 0; j < burstPerProducer; j++ {
+					rec := doReq(cl, target, 200+g, j, step{K: 1, Mode: "q"})
+					rec.Mode = "burst"
+					mu.Lock()
+					recs = append(recs, rec)
+					mu.Unlock()
+				}
+			}(g)
+		}
+		close(start)
+		bw.Wait()
+	}
+	logf("burst done, draining")
 
 	// Drain: one final wait request per node, then a strong read of everything.
 	cl.HTTP.Timeout = 150 * time.Second
